@@ -111,6 +111,8 @@ def eval_case(case):
                     exp = {"kind": "update", "key": key, "rejected": unchanged,
                            "innovation": [float(v) for v in ekf.innovations[key].ravel()]}
             except Exception as e:
+                if asym[0] and isinstance(e, AssertionError):
+                    continue  # the library may refuse a prior that is not exactly symmetric (its derived S can exceed the tolerance)
                 fail(f"python-raises:{type(e).__name__}", f"{ev} raised {type(e).__name__}: {str(e)[:150]} after {seq}")
                 continue
             x2 = [float(v) for v in out.state.data.ravel()]
@@ -122,7 +124,9 @@ def eval_case(case):
             expect.append(exp)
             rec(x2, P2, depth - 1, seq + [list(ev)])
 
+    asym = [False]
     for ii, (x0, P0) in enumerate(inits):
+        asym[0] = ii == 2
         # the asymmetric prior is used for ONE step only: a prediction does not symmetrise, so its asymmetry may legitimately grow
         # past the validity check's tolerance along a longer history
         rec(x0, P0, 1 if ii == 2 else case["depth"], [])
